@@ -171,9 +171,18 @@ def gen_workload(rng, big=False, devel=False, same_prefix=False, extended=True, 
         # own (--d1/--d2; usr/lib/debug/<file>.debug reached through usr/lib/debug/.build-id/xx/yyyy.debug).  Drawn last, so
         # that the rest of the workload is what it was before this dimension existed.
         wl['splitdbg'] = True
-    if deb and wl['format'] != 'dir' and rng.chance(1, 2):
+    if deb and wl['format'] != 'dir' and rng.chance(1, 2) and have_deb():
         wl['format'] = 'deb'       # a Debian package (extracted with dpkg -x; content at the top of the extraction directory)
     return wl
+
+
+def have_deb():
+    """Debian packages are part of the workload space where the machine can build and extract them"""
+    try:
+        built_in = '#define WITH_DEB 1' in open(os.path.join(C.REPO, 'config.h')).read()
+    except OSError:
+        built_in = False
+    return bool(built_in and shutil.which('dpkg-deb') and shutil.which('dpkg'))
 
 
 def eff(wl, v):
